@@ -207,6 +207,25 @@ def handle (cmd : String) (fs : List String) : String :=
                        tags := if hasTags == "1" then (if decodeStr tags = [] then none else some (parseList (decodeStr tags))) else none,
                        skip := parseList (decodeStr skip) }
     boolStr (shouldInstall cfg (decodeStr sub) (if hasTag == "1" then some (decodeStr tag) else none))
+  | "preserve", [only, sk, smt, dk, dmt] =>
+    -- `Installer.should_preserve_existing_file` on a stat tuple: --only-changed, kind and mtime_ns of the source,
+    -- kind and mtime_ns of the destination
+    let cfg : Cfg := { cwd := ['/'], buildDir := ['/'], destdir := [], fullprefix := [], umask := none, procUmask := 0,
+                       dryRun := false, onlyChanged := only == "1", tags := none, skip := [] }
+    let k : Key := ["d".toList, "f".toList]
+    let sm := smt.toNat?.getD 0
+    let dm := dmt.toNat?.getD 0
+    let src : Src := match sk with
+      | "f" => .file 0o644 2 sm
+      | "lf" => .linkFile "t".toList 0o644 2 sm
+      | "ld" => .linkDangling "t".toList
+      | "lD" => .linkDir "t".toList
+      | _ => .missing
+    let fs : FS := match dk with
+      | "f" => [(k, .file 0o644 1 dm)]
+      | "lf" => [(k, .link "real".toList), (["d".toList, "real".toList], .file 0o644 1 dm)]
+      | _ => []
+    boolStr (shouldPreserve cfg src { fs := fs } k)
   | "ghdr", [inc, hc, c, hs, sd, pres, f] =>
     encodeStr (hdrInstallPath (decodeStr inc) (if hc == "1" then some (decodeStr c) else none)
       (if hs == "1" then some (decodeStr sd) else none) (pres == "1") (decodeStr f))
